@@ -301,6 +301,12 @@ fn exec_read(
         return -EBADF;
     };
 
+    // The descriptor was opened without read access: `File::read_at`
+    // refuses it, and so does the kernel (EBADF) for a ring read.
+    if fs.write_only_fds.contains(&fd) {
+        return -EBADF;
+    }
+
     // O_DIRECT: enforce ptr/offset/len alignment, mirroring
     // shim::std::fs::File::read_at_internal. Real io_uring on a
     // misaligned O_DIRECT op returns -EINVAL.
@@ -354,6 +360,11 @@ fn exec_write(
     let Some(path) = fs.open_handles.get(&fd).cloned() else {
         return -EBADF;
     };
+
+    // Opened without write access, see exec_read.
+    if fs.read_only_fds.contains(&fd) {
+        return -EBADF;
+    }
 
     // O_DIRECT alignment, see exec_read for the rationale.
     if fs.direct_io_fds.contains(&fd) && !direct_io_aligned(fs, ptr as usize, offset, len) {
